@@ -117,6 +117,24 @@ def r1(ctx):
     ctx.check("C07.R1", bool(drains), key(f, "drain-loop"), site(f), "no loop that reads the previous body until it returns empty", "drain loop present")
     if not drains:
         return
+    # a reader's own discard method (`self.mesg.body.reader.skip()`) is a drain step when that method cannot return before the
+    # body is exhausted: every way from one of its reads to its exit passes a test of the remaining length or of "the read
+    # returned nothing"
+    drain_calls = []
+    for c in walk_own(f.node):
+        if isinstance(c, ast.Call) and isinstance(c.func, ast.Attribute) and c.func.attr not in ("read", "should_close") and (rname(f, c.func.value) or "").startswith("self.mesg.body"):
+            cands = [ff for ff in repo.funcs() if ff.name == c.func.attr and ff.module.name == BODY]
+            okk = bool(cands)
+            for ff in cands:
+                gg = ff.cfg
+                rds = [n for x in walk_own(ff.node) if isinstance(x, ast.Call) and isinstance(x.func, ast.Attribute) and x.func.attr in ("read", "chunk") for n in nodes_with(ff, x)]
+                tests_ = [t for t in gg.tests() if any(isinstance(y, ast.Attribute) and y.attr == "length" for y in ast.walk(t.ast)) or
+                          (isinstance(t.ast, ast.Name) and all(isinstance(z.ast, ast.Assign) and any(isinstance(y, ast.Call) and isinstance(y.func, ast.Attribute) and y.func.attr in ("read", "chunk")
+                                                                                                for y in ast.walk(z.ast.value)) for z in stores_to_name(ff, t.ast.id)))]
+                if not rds or not tests_ or any(gg.path(r_, [gg.exit], without_edges=[(t_, "false") for t_ in tests_], follow_exc=False) is not None for r_ in rds):
+                    okk = False
+            if okk:
+                drain_calls += nodes_with(f, c)
 
     def recog(e):
         if rname(f, e) == "self.mesg":
@@ -124,7 +142,7 @@ def r1(ctx):
         return None
     # only "read() returned empty" (the false edge of a drain test) leads on to the construction
     cut = [(t, "false") for t, _, _ in drains]
-    p, hits = guard_check(f, [n for c in ctor for n in nodes_with(f, c)], recog, extra_cut=cut)
+    p, hits = guard_check(f, [n for c in ctor for n in nodes_with(f, c)], recog, extra_cut=cut + [(n, "next") for n in drain_calls])
     ctx.check("C07.R1", p is None, key(f, "drain-before-next"), site(f, ctor[0]),
               "the next message can be parsed without the unread body of the previous one having been discarded: its bytes would be parsed as a request", "drain loop dominates the construction",
               path=p and g.fmt_path(p))
@@ -278,9 +296,15 @@ def r4(ctx):
                         if is_container:
                             holders.setdefault(t.attr, (f, x))
     extra = sorted(k for k in holders if k != "buf")
+    # a second container is acceptable only if no consumer can overlook it: read() and readline() (readlines() and iteration go
+    # through them) both consult it -- directly or through a helper that was expanded into them
+    def consults(fn, attr):
+        return any(isinstance(x, ast.Attribute) and x.attr == attr and isinstance(x.value, ast.Name) and x.value.id == "self" for x in walk_own(fn.node))
+    consumers = [cls.methods[m] for m in ("read", "readline") if m in cls.methods]
+    extra = [k for k in extra if not (len(consumers) == 2 and all(consults(fn, k) for fn in consumers))]
     ctx.check("C07.R4", "buf" in holders and not extra, key(cls.methods.get("__init__") or list(cls.methods.values())[0], "one-buffer"), site(holders[extra[0]][0], holders[extra[0]][1]) if extra else "gunicorn/http/body.py: Body",
-              "Body keeps body bytes in more than one container (%s besides `buf`): the calls that do not look at the extra one skip or reorder those bytes when an application mixes read / readline / iteration" % extra,
-              "single buffer `buf`")
+              "Body keeps body bytes in a container that read() / readline() never look at (%s besides `buf`): those calls skip or reorder the bytes parked there when an application mixes read / readline / iteration" % extra,
+              "every container is consulted by read() and readline()")
     # iteration yields whole lines: __next__ hands on what an *unbounded* readline() returns (a size cap would cut a long line
     # into fragments, unlike any file object) and ends on the empty read
     fn = ctx.fn(repo.func(BODY + ".Body.__next__"))
